@@ -1135,7 +1135,15 @@ def c11(tier, seed):
                 transport = ex.rng.choice(['string', 'string', 'file', 'gz'])
                 ex.res.count('filter_transport_' + transport)
                 if transport == 'string':
-                    hf = core.load_py(D, filter_object=f)
+                    if ex.rng.random() < 0.3:
+                        # with progress reporting (the bars follow the groups that are BUILT: r13-C11b, a bar closed after as many
+                        # groups as families were selected while sub-groups with ids still update it)
+                        import contextlib as _cl11, io as _io11
+                        ex.res.count('filtered_loads_with_progress_reporting')
+                        with _cl11.redirect_stderr(_io11.StringIO()):
+                            hf = core.load_py(D, filter_object=f, with_parser_progress=True)
+                    else:
+                        hf = core.load_py(D, filter_object=f)
                 else:
                     # the first (indexing) pass and the second pass both read the file (plain or gzip)
                     path = os.path.join(ex.tmp, 'flt.orthoxml' + ('.gz' if transport == 'gz' else ''))
@@ -1304,9 +1312,11 @@ def c12(tier, seed):
                         o.put('irt', key + '|err:' + ob.err_name(e))
                         bad.append('re-loading the export of %s raised %s: %s' % (key, type(e).__name__, e))
                 try:
-                    vis = h.create_iHam(nd, outfile=ex.tmp + '/iham.html')
+                    # (file names are the caller's: braces, blanks, percent signs are characters like any other -- r13-C12b)
+                    outn_ = ex.tmp + '/' + ex.rng.choice(['iham.html', 'iham.html', 'hog_{}.html', 'family{7}.html', 'set{a,b} 100%.html', 'open{.html'])
+                    vis = h.create_iHam(nd, outfile=outn_)
                     html = vis.HTML
-                    if open(ex.tmp + '/iham.html').read() != html:
+                    if open(outn_).read() != html:
                         bad.append('create_iHam(outfile=...) of %s wrote something else than the page it returns' % key)
                     sub_nwk = h.taxonomy.get_newick_from_tree(nd.genome.taxon)
                     if xs.split('<groups>')[-1] not in html and ob.OrthoXML_manager(nd).get_orthoxml_str().split('<groups')[-1] not in html:
@@ -1572,6 +1582,20 @@ def c19(tier, seed):
             ex.fail(cid, D, ['observing the loaded analysis raised %s: %s' % (type(e).__name__, e)])
             continue
         bad = []
+        import re as _re19
+        if k % 3 == 0 and any(_re19.fullmatch(r'[A-Z][A-Z0-9]{4}', gen.sub(D.T, p_)[0] or '') for p_ in gen.paths(D.T) if not gen.sub(D.T, p_)[1]):
+            # species_resolve_mode="OMA" (species named by OMA codes): every species of this file names a leaf, so the mode
+            # changes nothing -- every group keeps its HOG with its id, scores and properties (theorem
+            # C20_oma_mode_conservative; r13-C19b: groups labelled with the clade above a code leaf dissolved in this mode)
+            try:
+                ho_ = core.load_py(D, species_resolve_mode='OMA')
+                oo_ = ob.Obs(); ob.observe_load(ho_, oo_); ob.observe_ann(ho_, oo_)
+                ex.res.count('oma_mode_loads')
+                dd_ = core.diff_tags(o.tags, oo_.tags, ['forest', 'annall', 'loft', 'genes'])
+                if dd_:
+                    bad.append('loaded with species_resolve_mode="OMA" the annotated hierarchy differs: %s' % (dd_[0],))
+            except Exception as e:      # noqa
+                bad.append('load with species_resolve_mode="OMA" raised %s: %s' % (type(e).__name__, e))
         # the property, from the generating histories
         nf = orc.name_fn(D)
         tops = h.get_dict_top_level_hogs()
@@ -1783,6 +1807,24 @@ def c20(tier, seed):
             bad = orc.c01(D, h)
             if bad:
                 ex.fail('C20-%d' % k, D, ['successful load dropped something: ' + b for b in bad])
+        # ... nor on a load from a gzip file made of several members (cat a.gz b.gz, bgzip): everything after the first member is
+        # part of the document (r13-C20a: a block-wise inflater that stops at the end of the first member)
+        def multi_gz_(xml_, name_):
+            import gzip as _gz
+            raw_ = xml_.encode(); c1_, c2_ = len(raw_) // 3, 2 * len(raw_) // 3
+            path_ = os.path.join(ex.tmp, name_)
+            with open(path_, 'wb') as f_:
+                f_.write(_gz.compress(raw_[:c1_]) + _gz.compress(raw_[c1_:c2_]) + _gz.compress(raw_[c2_:]))
+            return path_
+        if k % 3 == 1:
+            try:
+                hz_ = pyham.Ham(tree_file=core.nwk_of(D), hog_file=multi_gz_(gen.orthoxml(D.species, D.groups), 'c20m.orthoxml.gz'), use_internal_name=(D.naming == 'own'))
+                ex.res.count('loads_from_a_multi_member_gzip_file')
+                bad = orc.c01(D, hz_)
+                if bad:
+                    ex.fail('C20-%d-gz' % k, D, ['load from a gzip file of three members dropped something: ' + b for b in bad])
+            except Exception as e:      # noqa
+                ex.fail('C20-%d-gz' % k, D, ['load from a gzip file of three members raised %s: %s' % (type(e).__name__, e)])
         # ... also when species-level groups are dissolved into their parents
         Dw = gen.species_wrap(ex.rng, std_dataset(ex.rng, maxleaves=ex.rng.choice([3, 4, 5, 6])))
         hw, e_ = core.try_load(Dw)
@@ -1842,6 +1884,14 @@ def c20(tier, seed):
             # exception class, after the same sequence of parser states ("wherever in the file the fault occurs")
             sq20, st20 = ([], []) if late_kw else core.sax_of_last_load(o.tags)
             ex.res.count('parser_calls_compared_in_lock_step', sum(len(x.split(' (')) for x in sq20))
+            if not late_kw and j % 5 == 2:
+                # the same faulty file as a gzip file of several members: rejected wherever the fault lies
+                try:
+                    pyham.Ham(tree_file=core.nwk_of(D), hog_file=multi_gz_(gen.orthoxml(sp, gr), 'c20f.orthoxml.gz'), use_internal_name=(D.naming == 'own'))
+                    ex.fail(cid + '-gz', D, ['%s accepted when the file is a gzip file of three members' % kind], groups=gr, species=sp)
+                except Exception:      # noqa
+                    pass
+                ex.res.count('faults_in_a_multi_member_gzip_file')
             q20 = []
             tids20 = [g[1] for g in gr if g[0] == 'og' and g[1] is not None]
             if kind not in ('unknown-species', 'internal-as-species') and tids20 and len(tids20) == len([g for g in gr if g[0] == 'og']) and j % 3 == 0:
